@@ -21,6 +21,9 @@ GeoVerdict(e) ==
   IN IF e.exc # "" THEN <<"REJECT", "DrawsConsumed", "randomly_rewire_geomodel_" \o e.model \o ":" \o e.exc, tags>>
      ELSE IF ~EdgesMatch(g0) THEN <<"REJECT", "EdgeList", "initial edge list", tags>>
      ELSE IF e.used # 2 * Len(e.hist) THEN <<"REJECT", "DrawsConsumed", "randomly_rewire_geomodel_" \o e.model, tags>>
+     \* the node count (incl. an isolated highest node) is kept, and that node stays isolated
+     ELSE IF e.N1 # Len(e.A0) + e.extra \/ e.shape1 # <<e.N1, e.N1>> \/ e.extra_links # 0
+          THEN <<"REJECT", "NodeCount", "randomly_rewire_geomodel_" \o e.model, tags \o (IF e.extra = 1 THEN ",isolated_last_node" ELSE "")>>
      ELSE IF e.A1 # g1.A THEN <<"REJECT", "StepConformance", "randomly_rewire_geomodel_" \o e.model, tags>>
      ELSE IF ~(Simple(e.A1) /\ DegreeSeq(e.A1) = deg) THEN <<"REJECT", "DegreePreserved", "randomly_rewire_geomodel_" \o e.model, tags>>
      ELSE IF ~LengthsWithin(g1, g0, e.D, e.eps, e.iter) THEN <<"REJECT", "LinkLengths", "randomly_rewire_geomodel_" \o e.model, tags>>
